@@ -104,6 +104,7 @@ class Block:
         self.steps = []      # ('rule', id, args) | ('rewrite', id, rx, repl)
         self.texts = []      # (kind, arg, text, tpl_line)
         self.contract_only = False
+        self.attrs = []
         self.imported_from = None
 
 
@@ -190,6 +191,8 @@ def parse_template(path):
                 cur.header = arg
             elif key == 'ret':
                 cur.ret = arg
+            elif key == 'attr':
+                cur.attrs.append(arg)
             elif key == 'tail':
                 cur.tail = arg
             elif key == 'rule':
@@ -503,6 +506,8 @@ def expand_block(blk, gen, unit_id):
                     inserts.append((off, 0, t + '\n', ln, None))
     # assemble
     start_gen = len(gen.lines)
+    for a_ in blk.attrs:
+        gen.add(a_, lambda k: ('gen',))
     gen.add(header, lambda k: ('repo', blk.file, first_line))
     contract_gen_line = len(gen.lines) + 1
     if contract_text.strip():
